@@ -118,6 +118,9 @@ type Schedule struct {
 	// Order[h] = index of the permutation of the participants' steps in block h
 	// (0 = ascending).
 	Order map[int64]int `json:"order,omitempty"`
+	// LateStart[k] = the keyper process k is started only once this many blocks are
+	// closed (its check-in then reaches shuttermint after the others')
+	LateStart map[int]int64 `json:"late_start,omitempty"`
 }
 
 func (s Schedule) String() string {
@@ -267,6 +270,9 @@ func perms(n int) [][]int {
 // paused reports whether the schedule makes keyper k skip its step while
 // `committed` is the last closed block.
 func (w *World) paused(k int, committed int64) bool {
+	if h, ok := w.Spec.Schedule.LateStart[k]; ok && committed < h {
+		return true
+	}
 	d, ok := w.Spec.Schedule.Delay[k]
 	if !ok || len(w.Eons) == 0 {
 		return false
